@@ -93,14 +93,24 @@ namespace bloch::compiler {
             int depth = 0;
             size_t j = i + 1;
             while (j < m_tokens.size()) {
-                if (m_tokens[j].type == TokenType::Less)
+                const TokenType t = m_tokens[j].type;
+                if (t == TokenType::Less)
                     depth++;
-                else if (m_tokens[j].type == TokenType::Greater) {
+                else if (t == TokenType::Greater) {
                     depth--;
                     if (depth == 0) {
                         i = j;
                         break;
                     }
+                } else if (!(t == TokenType::Identifier || t == TokenType::Dot ||
+                             t == TokenType::Comma || t == TokenType::LBracket ||
+                             t == TokenType::RBracket || t == TokenType::IntegerLiteral ||
+                             t == TokenType::Int || t == TokenType::Long ||
+                             t == TokenType::Float || t == TokenType::Char ||
+                             t == TokenType::String || t == TokenType::Bit ||
+                             t == TokenType::Qubit || t == TokenType::Boolean)) {
+                    // Not a type-argument list: '<' is a comparison (e.g. `(a < b) && (c > d)`).
+                    return;
                 }
                 j++;
             }
@@ -1292,7 +1302,8 @@ namespace bloch::compiler {
 
         if (match(TokenType::LParen)) {
             const Token& lparen = previous();
-            if (isTypeAhead()) {
+            // Casts target primitive types only; '(' followed by an identifier is an expression.
+            if (!check(TokenType::Identifier) && isTypeAhead()) {
                 std::unique_ptr<Type> targetType = parseType();
                 (void)expect(TokenType::RParen, "Expected ')' after type in cast expression");
                 std::unique_ptr<Expression> operand = parseUnary();
